@@ -288,13 +288,18 @@ func hasClientECS(req *dns.Msg) bool {
 	if req == nil {
 		return false
 	}
-	opt := req.IsEdns0()
-	if opt == nil {
-		return false
-	}
-	for _, option := range opt.Option {
-		if _, ok := option.(*dns.EDNS0_SUBNET); ok {
-			return true
+	// Every OPT record of the message, not only the one IsEdns0 selects
+	// (the last): SetEdns0 drops the others, and the fact that the query
+	// carried the option has to outlive that.
+	for _, rr := range req.Extra {
+		opt, ok := rr.(*dns.OPT)
+		if !ok {
+			continue
+		}
+		for _, option := range opt.Option {
+			if _, ok := option.(*dns.EDNS0_SUBNET); ok {
+				return true
+			}
 		}
 	}
 	return false
